@@ -223,7 +223,17 @@ impl<K: Hash + Eq, V, FH: BuildHasher, RH: BuildHasher> SegmentedCache<K, V, FH,
 
     /// `put_protected` will force to put an entry in protected LRU
     pub fn put_protected(&mut self, k: K, v: V) -> PutResult<K, V> {
-        self.protected.put(k, v)
+        // the key must not stay behind in the probationary segment
+        match self.probationary.remove(&k) {
+            None => self.protected.put(k, v),
+            Some(old) => match self.protected.put(k, v) {
+                PutResult::Evicted { key, value } => PutResult::EvictedAndUpdate {
+                    evicted: (key, value),
+                    update: old,
+                },
+                _ => PutResult::Update(old),
+            },
+        }
     }
 
     /// Returns the value corresponding to the least recently used item or `None` if the
